@@ -78,6 +78,7 @@ type UI struct {
 	Out   []string // Print
 	Errs  []string // PrintErr
 	ErrAt []int    // per message: how many input lines had been read when it was printed
+	OutAt []int    // the same for Out
 	// OnRead, if set, is called before each ReadLine with the index of the line.
 	OnRead func(i int)
 }
@@ -98,6 +99,7 @@ func (u *UI) ReadLine(prompt string) (string, error) {
 func (u *UI) Print(args ...interface{}) {
 	u.mu.Lock()
 	u.Out = append(u.Out, fmt.Sprint(args...))
+	u.OutAt = append(u.OutAt, u.pos)
 	u.mu.Unlock()
 }
 func (u *UI) PrintErr(args ...interface{}) {
